@@ -175,6 +175,9 @@ def tr_expr(cx, env, e):
                      ast.FloorDiv: '(Py.fdiv %s %s)', ast.Mod: '(Py.fmod %s %s)'}
             if op in table:
                 return table[op] % (a, b), 'int', pre
+        if ta == 'int' and tb == 'int' and op is ast.Pow:
+            v = cx.tmp()
+            return v, 'int', pre + ['let %s ← Py.pow %s %s' % (v, a, b)]
         raise Unsupported('binop %s on %s,%s' % (unparse(e), ta, tb))
     if isinstance(e, ast.Compare) and len(e.ops) == 1 and isinstance(e.ops[0], (ast.In, ast.NotIn)):
         a, ta, pa = tr_expr(cx, env, e.left)
@@ -253,6 +256,14 @@ def tr_expr(cx, env, e):
                 return '(Py.sliceFrom %s %s)' % (t, lit(s.lower.value)), 'tup', pt
             if s.upper is not None and s.lower is None and isinstance(s.upper, ast.Constant) and s.upper.value >= 0:
                 return '(Py.sliceTo %s %s)' % (t, lit(s.upper.value)), 'tup', pt
+            if s.lower is not None and s.upper is None:
+                i, ti, pi = tr_expr(cx, env, s.lower)
+                if ti == 'int':
+                    return '(Py.sliceFromG %s %s)' % (t, i), 'tup', pt + pi
+            if s.upper is not None and s.lower is None:
+                i, ti, pi = tr_expr(cx, env, s.upper)
+                if ti == 'int':
+                    return '(Py.sliceToG %s %s)' % (t, i), 'tup', pt + pi
             raise Unsupported('slice %s' % unparse(e))
         i, ti, pi = tr_expr(cx, env, e.slice)
         if ti != 'int':
@@ -446,6 +457,22 @@ def tr_block(cx, env, stmts, ret_ty, tail):
         if len(s.targets) != 1:
             raise Unsupported('multiple assignment')
         t = s.targets[0]
+        if (isinstance(t, ast.Tuple) and isinstance(s.value, ast.Tuple) and len(t.elts) == len(s.value.elts)
+                and all(isinstance(x, ast.Name) for x in t.elts)):
+            # a, b = x, y : every right-hand side is evaluated in the old environment, then the names are bound
+            lines = []
+            tmps = []
+            for x in s.value.elts:
+                v, tv, pre = tr_expr(cx, env, x)
+                if tv not in LEAN_TY:
+                    raise Unsupported('parallel assignment of %s' % tv)
+                tm = cx.tmp()
+                lines += pre + ['let %s : %s := %s' % (tm, LEAN_TY[tv], v)]
+                tmps.append((tm, tv))
+            for x, (tm, tv) in zip(t.elts, tmps):
+                env[x.id] = tv
+                lines.append('let %s : %s := %s' % (x.id, LEAN_TY[tv], tm))
+            return lines + cont(env)
         if isinstance(t, ast.Tuple):
             v, tv, pre = tr_expr(cx, env, s.value)
             if tv != 'tup' or not all(isinstance(x, ast.Name) for x in t.elts):
